@@ -297,6 +297,24 @@ func main() {
 	}); err != nil {
 		vhlib.Fatal("%v", err)
 	}
+	// the specification's order of names (Generate.tla: Rank) must be the byte order fs.WalkDir uses: every emitted
+	// file list is sorted by the specification; check that it is sorted component-wise as real paths
+	for _, c := range cases {
+		for i := 1; i < len(c.Files); i++ {
+			a := append(append([]string{}, c.Files[i-1].Dir...), c.Files[i-1].Name)
+			b := append(append([]string{}, c.Files[i].Dir...), c.Files[i].Name)
+			less := false
+			for k := 0; k < len(a) && k < len(b); k++ {
+				if a[k] != b[k] {
+					less = a[k] < b[k]
+					break
+				}
+			}
+			if !less {
+				vhlib.Fatal("Generate.tla orders %q before %q, fs.WalkDir does not (Rank table out of date)", c.Files[i-1].rel(), c.Files[i].rel())
+			}
+		}
+	}
 	if corrupt && len(cases) > 0 {
 		// binding self-test: flip one predicted exit status
 		c := cases[len(cases)/2]
